@@ -7,28 +7,44 @@ import SeqIoModel.Proofs.FastqStreamOutcome
 namespace SeqIo.Fastq
 open SeqIo SeqIo.Spec SeqIo.WriteProofs SeqIo.FillProofs
 
-theorem polGrows_hist {p : Pol} (h : PolGrows p) (hist : List Nat) :
-    PolGrows { p with hist := hist } := h
+/-- the reader after a granted `grow` -/
+def growOk (r : Reader) (n : Nat) : Reader :=
+  { r with pol := { r.pol with hist := r.pol.hist ++ [r.br.cap] },
+           log := r.log ++ [(r.br.cap, some n)],
+           br := { r.br with cap := n } }
 
-/-- `grow` on a full buffer with a well-behaved policy: the capacity increases -/
-theorem grow_spec (r : Reader) (hpol : PolGrows r.pol) (hfull : r.br.buf.length = r.br.cap)
+/-- the reader after a refused `grow` -/
+def growNo (r : Reader) : Reader :=
+  { r with pol := { r.pol with hist := r.pol.hist ++ [r.br.cap] },
+           log := r.log ++ [(r.br.cap, none)] }
+
+/-- `grow` on a full buffer with a policy that answers more or refuses: the capacity
+increases, or the policy refuses (then it is not a growing policy) -/
+theorem grow_spec (r : Reader) (hpol : PolWf1 r.pol) (hfull : r.br.buf.length = r.br.cap)
     (hcap : 1 ≤ r.br.cap) :
-    ∃ pol' log' n, r.br.cap < n ∧ PolGrows pol' ∧
-      grow r = ({ r with pol := pol', log := log', br := { r.br with cap := n } }, .ok ()) := by
-  obtain ⟨n, hn, hlt⟩ := hpol r.pol.hist r.br.cap hcap
-  refine ⟨{ r.pol with hist := r.pol.hist ++ [r.br.cap] }, r.log ++ [(r.br.cap, some n)], n, hlt,
-    polGrows_hist hpol _, ?_⟩
-  have hne : r.br.buf.isEmpty = false := by
-    cases hb : r.br.buf with
-    | nil => rw [hb] at hfull; simp at hfull; omega
-    | cons => rfl
-  have hres : r.br.reserve (n - r.br.cap) = { r.br with cap := n } := by
-    simp only [BufRd.reserve, hfull, Nat.sub_self, hne]
-    rw [if_neg (by omega)]
-    simp only [Bool.false_eq_true, if_false, Nat.sub_zero]
-    congr 1
-    omega
-  simp only [grow, Pol.growTo, hn, csub_of_le (Nat.le_of_lt hlt), hres]
+    (∃ n, r.br.cap < n ∧ r.pol.f (r.pol.hist ++ [r.br.cap]) = some n ∧
+      grow r = (growOk r n, .ok ())) ∨
+    (r.pol.f (r.pol.hist ++ [r.br.cap]) = none ∧ grow r = (growNo r, .err .bufferLimit)) := by
+  cases hn : r.pol.f (r.pol.hist ++ [r.br.cap]) with
+  | none =>
+    right
+    refine ⟨rfl, ?_⟩
+    simp only [grow, Pol.growTo, hn, growNo]
+  | some n =>
+    left
+    have hlt := hpol r.pol.hist r.br.cap n hcap hn
+    refine ⟨n, hlt, rfl, ?_⟩
+    have hne : r.br.buf.isEmpty = false := by
+      cases hb : r.br.buf with
+      | nil => rw [hb] at hfull; simp at hfull; omega
+      | cons => rfl
+    have hres : r.br.reserve (n - r.br.cap) = { r.br with cap := n } := by
+      simp only [BufRd.reserve, hfull, Nat.sub_self, hne]
+      rw [if_neg (by omega)]
+      simp only [Bool.false_eq_true, if_false, Nat.sub_zero]
+      congr 1
+      omega
+    simp only [grow, Pol.growTo, hn, csub_of_le (Nat.le_of_lt hlt), hres, growOk]
 
 /-- the offsets after `make_room` -/
 def shiftBp (bp : BufPos) (ip : RecordPos) : BufPos :=
@@ -84,11 +100,11 @@ theorem noFail_suffix {a b : List ReadEv} (h : NoFail (a ++ b)) : NoFail b :=
   fun e he k => h e (List.mem_append_right a he) k
 
 /-- a refill keeps the window invariant and (re-)establishes the knowledge about the end -/
-theorem fill_base (inp : List UInt8) (r : Reader) (hb : Base inp r) :
+theorem fill_win (inp : List UInt8) (G : Prop) (r : Reader) (hb : Win inp G r) :
     ∃ br' ext n, fillBuf r.br = (br', .ok n) ∧ br'.buf = r.br.buf ++ ext ∧ br'.cap = r.br.cap ∧
       br'.src.cursor = r.br.src.cursor + ext.length ∧
       ext.length = min (r.br.cap - r.br.buf.length) (inp.length - r.br.src.cursor) ∧
-      Base inp { r with br := br' } ∧ Eof inp { r with br := br' } ∧ n = ext.length := by
+      Win inp G { r with br := br' } ∧ Eof inp { r with br := br' } ∧ n = ext.length := by
   obtain ⟨br', n, hfill⟩ := fillBuf_noFail_ok r.br hb.nofail
   obtain ⟨hn, used, hstep⟩ := fillBuf_ok r.br br' n hfill
   have hrem : r.br.src.remaining = inp.length - r.br.src.cursor := by
@@ -97,12 +113,13 @@ theorem fill_base (inp : List UInt8) (r : Reader) (hb : Base inp r) :
   have hlen : ((r.br.src.inp.drop r.br.src.cursor).take n).length = n := by
     apply length_take_drop
     rw [hb.inp_eq]; omega
+  have hlen' : ((inp.drop r.br.src.cursor).take n).length = n := by rw [← hb.inp_eq]; exact hlen
   have hcur := hb.cur_le
   have hlen_le := hb.len_le
-  have hp0 := hb.pos0_le
+  have hlc := hb.len_cur
   refine ⟨br', (r.br.src.inp.drop r.br.src.cursor).take n, n, hfill, hstep.buf, hstep.cap,
     by rw [hstep.cursor, hlen], by rw [hlen, hn], ?_, ?_, hlen.symm⟩
-  · refine ⟨?_, ?_, ?_, hb.polok, ?_, ?_, ?_, ?_, ?_⟩
+  · refine ⟨?_, ?_, ?_, hb.polwf, hb.polg, ?_, ?_, ?_, ?_, ?_⟩
     · simp only [hstep.inp, hb.inp_eq]
     · simp only [hstep.cursor]; omega
     · simp only
@@ -110,51 +127,59 @@ theorem fill_base (inp : List UInt8) (r : Reader) (hb : Base inp r) :
       exact noFail_suffix (this ▸ hb.nofail)
     · simp only [hstep.cap]; exact hb.cap3
     · simp only [hstep.cap, hstep.buf, List.length_append, hlen]; omega
-    · simp only [hstep.buf, List.length_append, hlen]; omega
-    · simp only [hstep.buf, hstep.cursor, hb.inp_eq]
-      rw [List.drop_append_of_le_length hp0, List.append_assoc, hb.win]
+    · simp only [hstep.buf, hstep.cursor, List.length_append, hlen]; omega
+    · simp only [hstep.buf, hstep.cursor, hb.inp_eq, List.length_append, hlen']
+      have : r.br.src.cursor + n - (r.br.buf.length + n) = r.br.src.cursor - r.br.buf.length := by
+        omega
+      rw [this, hb.full, List.append_assoc]
       congr 1
       rw [← List.drop_drop]
       exact (List.take_append_drop n _).symm
     · simp only [hstep.buf, hstep.cursor, List.length_append, hlen]
-      have := hb.byte_eq
+      have := hb.byte_pos
       omega
   · intro hlt
     simp only [hstep.cap, hstep.buf, List.length_append, hlen, hstep.cursor] at hlt ⊢
     omega
 
-
 /-! ## the loop -/
 
 /-- the part of a loop iteration after the refill -/
-def resumeK (f : Nat) (ip : RecordPos) (r : Reader) : Reader × Res Bool :=
+def resumeK (f : Nat) (ip : RecordPos) (mk : Bool) (r : Reader) : Reader × Res Bool :=
   match searchIncomplete r ip with
-  | (r, .ok (some ip')) => resume f ip' true r
+  | (r, .ok (some ip')) => resume f ip' mk r
   | (r, .ok none) => (r, .ok true)
   | (r, .err e) => (r, .err e)
   | (r, .panic) => (r, .panic)
   | (r, .fuel) => (r, .fuel)
 
-theorem resume_eof (f : Nat) (ip : RecordPos) (r : Reader) (h : r.br.buf.length < r.br.cap) :
-    resume (f + 1) ip true r = checkEnd { r with state := .finished } ip := by
+theorem resume_eof (f : Nat) (ip : RecordPos) (mk : Bool) (r : Reader)
+    (h : r.br.buf.length < r.br.cap) :
+    resume (f + 1) ip mk r = checkEnd { r with state := .finished } ip := by
   rw [resume, if_pos h]
 
-theorem resume_grow (f : Nat) (ip : RecordPos) (r r1 : Reader) (br' : BufRd) (n : Nat)
-    (h : ¬ r.br.buf.length < r.br.cap) (hp : r.bp.pos0 = 0) (hg : grow r = (r1, .ok ()))
-    (hfill : fillBuf r1.br = (br', .ok n)) :
-    resume (f + 1) ip true r = resumeK f ip { r1 with br := br' } := by
+theorem resume_grow (f : Nat) (ip : RecordPos) (mk : Bool) (r r1 : Reader) (br' : BufRd) (n : Nat)
+    (h : ¬ r.br.buf.length < r.br.cap) (hp : (!mk || decide (r.bp.pos0 = 0)) = true)
+    (hg : grow r = (r1, .ok ())) (hfill : fillBuf r1.br = (br', .ok n)) :
+    resume (f + 1) ip mk r = resumeK f ip mk { r1 with br := br' } := by
   rw [resume, if_neg h]
-  simp only [hp, Bool.not_true, Bool.false_or, decide_true, if_true, hg, hfill, resumeK]
+  simp only [hp, if_true, hg, hfill, resumeK]
   generalize searchIncomplete _ _ = v
   rcases v with ⟨r', ((_ | _) | _ | _ | _)⟩ <;> rfl
 
-theorem resume_room (f : Nat) (ip : RecordPos) (r r1 : Reader) (br' : BufRd) (n : Nat)
-    (h : ¬ r.br.buf.length < r.br.cap) (hp : r.bp.pos0 ≠ 0) (hg : makeRoom r ip = some r1)
-    (hfill : fillBuf r1.br = (br', .ok n)) :
-    resume (f + 1) ip true r = resumeK f ip { r1 with br := br' } := by
+theorem resume_refused (f : Nat) (ip : RecordPos) (mk : Bool) (r r1 : Reader) (e : Err)
+    (h : ¬ r.br.buf.length < r.br.cap) (hp : (!mk || decide (r.bp.pos0 = 0)) = true)
+    (hg : grow r = (r1, .err e)) :
+    resume (f + 1) ip mk r = ({ r1 with state := .finished }, .err e) := by
   rw [resume, if_neg h]
-  simp only [hp, Bool.not_true, Bool.false_or, decide_false, Bool.false_eq_true, if_false, hg,
-    hfill, resumeK]
+  simp only [hp, if_true, hg]
+
+theorem resume_room (f : Nat) (ip : RecordPos) (mk : Bool) (r r1 : Reader) (br' : BufRd) (n : Nat)
+    (h : ¬ r.br.buf.length < r.br.cap) (hp : (!mk || decide (r.bp.pos0 = 0)) = false)
+    (hg : makeRoom r ip = some r1) (hfill : fillBuf r1.br = (br', .ok n)) :
+    resume (f + 1) ip mk r = resumeK f ip mk { r1 with br := br' } := by
+  rw [resume, if_neg h]
+  simp only [hp, Bool.false_eq_true, if_false, hg, hfill, resumeK]
   generalize searchIncomplete _ _ = v
   rcases v with ⟨r', ((_ | _) | _ | _ | _)⟩ <;> rfl
 
@@ -163,86 +188,106 @@ def mu (inp : List UInt8) (r : Reader) : Nat :=
   (inp.length - r.br.src.cursor) + (if r.br.buf.length < r.br.cap then 0 else 1)
 
 /-- after the refill: either the record is complete and `validate` decides, or the loop goes on -/
-theorem resumeK_spec (inp : List UInt8) (f : Nat) (ip : RecordPos) (r : Reader)
-    (ih : ∀ (r : Reader) (ip : RecordPos), Base inp r → Eof inp r → r.state = .parsing →
+theorem resumeK_spec (inp : List UInt8) (G : Prop) (f : Nat) (ip : RecordPos) (mk : Bool)
+    (r : Reader)
+    (ih : ∀ (r : Reader) (ip : RecordPos), Base inp G r → Eof inp r →
       Scan r.br.buf r.bp ip → mu inp r + 1 ≤ f →
-      Outcome inp (itemsAt inp r.byte r.line) (resume f ip true r))
-    (hb : Base inp r) (he : Eof inp r) (hst : r.state = .parsing)
+      Found inp G r.state (itemsAt inp r.byte r.line) (resume f ip mk r))
+    (hb : Base inp G r) (he : Eof inp r)
     (hpre : Pre r.br.buf r.bp ip) (hmu : mu inp r + 1 ≤ f) :
-    Outcome inp (itemsAt inp r.byte r.line) (resumeK f ip r) := by
+    Found inp G r.state (itemsAt inp r.byte r.line) (resumeK f ip mk r) := by
   rcases si_spec r ip hb.pos0_le hpre with ⟨bp', ip', hp0, hsc, hres⟩ | ⟨bp', hp0, hf4, hres⟩
   · simp only [resumeK, hres]
-    exact ih { r with bp := bp', incompletePos := some ip' } ip' (hb.set_bp bp' _ hp0) he hst hsc hmu
-  · have : resumeK f ip r = validated { r with bp := bp', incompletePos := none } := by
+    exact ih { r with bp := bp', incompletePos := some ip' } ip' (hb.set_bp bp' _ hp0) he hsc hmu
+  · have : resumeK f ip mk r = validated { r with bp := bp', incompletePos := none } := by
       rw [← wrapS_wrapV_validate]
       simp only [resumeK, hres]
       generalize validate _ = v
       rcases v with ⟨r', (_ | _ | _ | _)⟩ <;> rfl
     rw [this]
-    exact complete_outcome inp { r with bp := bp', incompletePos := none }
-      (hb.set_bp bp' _ hp0) he hst rfl hf4
+    exact complete_found inp G { r with bp := bp', incompletePos := none }
+      (hb.set_bp bp' _ hp0) he rfl hf4
 
-theorem resume_spec (inp : List UInt8) (f : Nat) :
-    ∀ (r : Reader) (ip : RecordPos), Base inp r → Eof inp r → r.state = .parsing →
+/-- the loop of `resume_incomplete_search` finds S's next item (`mk` = may the buffer be
+shifted) -/
+theorem resume_spec (inp : List UInt8) (G : Prop) (mk : Bool) (f : Nat) :
+    ∀ (r : Reader) (ip : RecordPos), Base inp G r → Eof inp r →
       Scan r.br.buf r.bp ip → mu inp r + 1 ≤ f →
-      Outcome inp (itemsAt inp r.byte r.line) (resume f ip true r) := by
+      Found inp G r.state (itemsAt inp r.byte r.line) (resume f ip mk r) := by
   induction f with
-  | zero => intro r ip _ _ _ _ h; omega
+  | zero => intro r ip _ _ _ h; omega
   | succ f ih =>
-    intro r ip hb he hst hsc hmu
+    intro r ip hb he hsc hmu
     by_cases hlt : r.br.buf.length < r.br.cap
     · -- end of input
-      rw [resume_eof f ip r hlt]
+      rw [resume_eof f ip mk r hlt]
       have hcur := he hlt
-      have hb' : Base inp { r with state := .finished } := by
-        obtain ⟨a, b, c, d, e, f, g, w, k⟩ := hb
-        exact ⟨a, b, c, d, e, f, g, w, k⟩
+      have hb' : Base inp G { r with state := .finished } := hb.set_state _
       by_cases hq : ip = .qual
       · subst hq
-        exact eofq_outcome inp { r with state := .finished } hb' hcur rfl hsc
-      · exact eof_few_outcome inp { r with state := .finished } hb' hcur rfl ip hq hsc
+        exact eofq_found inp G r.state { r with state := .finished } hb' he hcur rfl hsc
+      · exact eof_few_found inp G r.state { r with state := .finished } hb' he hcur rfl ip hq hsc
     · have hfull : r.br.buf.length = r.br.cap := by have := hb.len_le; omega
       have hmu0 : mu inp r = inp.length - r.br.src.cursor + 1 := by
         simp only [mu, hlt, if_false]
-      by_cases hp : r.bp.pos0 = 0
-      · -- grow
-        obtain ⟨pol', log', n, hn, hpol', hg⟩ := grow_spec r hb.polok hfull (by have := hb.cap3; omega)
-        generalize hr1 : ({ r with pol := pol', log := log', br := { r.br with cap := n } } : Reader)
-          = r1 at hg
-        have hb1 : Base inp r1 := by
-          obtain ⟨a, b, c, d, e, f, g, w, k⟩ := hb
-          subst hr1
-          exact ⟨a, b, c, hpol', by simp only; omega, by simp only; omega, g, w, k⟩
-        obtain ⟨br', ext, m, hfill, hbuf, hcap, hcur, hext, hb2, he2, -⟩ := fill_base inp r1 hb1
-        rw [resume_grow f ip r r1 br' m hlt hp hg hfill]
-        have e1 : r1.br.buf = r.br.buf := by subst hr1; rfl
-        have e2 : r1.bp = r.bp := by subst hr1; rfl
-        have e3 : r1.byte = r.byte := by subst hr1; rfl
-        have e4 : r1.line = r.line := by subst hr1; rfl
-        have e5 : r1.state = r.state := by subst hr1; rfl
-        have e6 : r1.br.cap = n := by subst hr1; rfl
-        have e7 : r1.br.src.cursor = r.br.src.cursor := by subst hr1; rfl
-        have := resumeK_spec inp f ip { r1 with br := br' } ih hb2 he2 (by simp only [e5, hst])
-          (by simp only [hbuf, e1, e2]; exact hsc.1.append ext)
-          (by
-            simp only [mu, hcur, hcap, hbuf, List.length_append, e1, e6, e7] at hext ⊢
-            split <;> omega)
-        simpa only [e3, e4] using this
-      · -- make room
+      have hw := hb.toWin
+      cases hp : (!mk || decide (r.bp.pos0 = 0)) with
+      | true =>
+        -- grow
+        rcases grow_spec r hw.polwf hfull (by have := hb.cap3; omega) with
+          ⟨n, hn, hans, hg⟩ | ⟨hans, hg⟩
+        · generalize hr1 : growOk r n = r1 at hg
+          have hw1 : Win inp G r1 := by
+            obtain ⟨a, b, c, d, e, f, g, i, w, k⟩ := hw
+            subst hr1
+            exact ⟨a, b, c, d, e, by simp only [growOk]; omega, by simp only [growOk]; omega, i, w, k⟩
+          obtain ⟨br', ext, m, hfill, hbuf, hcap, hcur, hext, hw2, he2, -⟩ := fill_win inp G r1 hw1
+          rw [resume_grow f ip mk r r1 br' m hlt hp hg hfill]
+          have e1 : r1.br.buf = r.br.buf := by subst hr1; rfl
+          have e2 : r1.bp = r.bp := by subst hr1; rfl
+          have e3 : r1.byte = r.byte := by subst hr1; rfl
+          have e4 : r1.line = r.line := by subst hr1; rfl
+          have e5 : r1.state = r.state := by subst hr1; rfl
+          have e6 : r1.br.cap = n := by subst hr1; rfl
+          have e7 : r1.br.src.cursor = r.br.src.cursor := by subst hr1; rfl
+          have hb2 : Base inp G { r1 with br := br' } :=
+            ⟨hw2, by simp only [hbuf, e1, e2, List.length_append]; have := hb.pos0_le; omega⟩
+          have := resumeK_spec inp G f ip mk { r1 with br := br' } ih hb2 he2
+            (by simp only [hbuf, e1, e2]; exact hsc.1.append ext)
+            (by
+              simp only [mu, hcur, hcap, hbuf, List.length_append, e1, e6, e7] at hext ⊢
+              split <;> omega)
+          simpa only [e3, e4, e5] using this
+        · rw [resume_refused f ip mk r _ _ hlt hp hg]
+          refine Or.inr (Or.inr (Or.inr ⟨rfl, ?_, rfl, ?_, he⟩))
+          · intro hG
+            obtain ⟨n, hn, -⟩ := hw.polg hG r.pol.hist r.br.cap (by have := hb.cap3; omega)
+            rw [hn] at hans
+            cases hans
+          · obtain ⟨a, b, c, d, e, f, g, i, w, k⟩ := hw
+            exact ⟨a, b, c, d, e, f, g, i, w, k⟩
+      | false =>
+        -- make room
         obtain ⟨hmr, hpre'⟩ := makeRoom_spec r ip hsc.1
         generalize hr1 : ({ r with br := r.br.consume r.bp.pos0, bp := shiftBp r.bp ip } : Reader)
           = r1 at hmr
         have hp0 := hb.pos0_le
-        have hb1 : Base inp r1 := by
-          obtain ⟨a, b, c, d, e, f, g, w, k⟩ := hb
+        have hpne : r.bp.pos0 ≠ 0 := by
+          intro h0
+          simp [h0] at hp
+        have hw1 : Win inp G r1 := by
+          obtain ⟨a, b, c, d, e, f, g, i, w, k⟩ := hw
           subst hr1
-          refine ⟨a, b, c, d, e, ?_, ?_, ?_, ?_⟩
+          refine ⟨a, b, c, d, e, f, ?_, ?_, ?_, ?_⟩
           · simp only [BufRd.consume, List.length_drop]; omega
-          · simp only [shiftBp]; omega
-          · simpa only [BufRd.consume, shiftBp, List.drop_zero] using w
+          · simp only [BufRd.consume, List.length_drop]; omega
+          · simp only [BufRd.consume, List.length_drop]
+            have : r.br.src.cursor - (r.br.buf.length - r.bp.pos0) =
+                (r.br.src.cursor - r.br.buf.length) + r.bp.pos0 := by omega
+            rw [this, ← List.drop_drop, w, List.drop_append_of_le_length hp0]
           · simp only [BufRd.consume, shiftBp, List.length_drop]; omega
-        obtain ⟨br', ext, m, hfill, hbuf, hcap, hcur, hext, hb2, he2, -⟩ := fill_base inp r1 hb1
-        rw [resume_room f ip r r1 br' m hlt hp hmr hfill]
+        obtain ⟨br', ext, m, hfill, hbuf, hcap, hcur, hext, hw2, he2, -⟩ := fill_win inp G r1 hw1
+        rw [resume_room f ip mk r r1 br' m hlt hp hmr hfill]
         have e1 : r1.br.buf = r.br.buf.drop r.bp.pos0 := by subst hr1; rfl
         have e2 : r1.bp = shiftBp r.bp ip := by subst hr1; rfl
         have e3 : r1.byte = r.byte := by subst hr1; rfl
@@ -250,12 +295,14 @@ theorem resume_spec (inp : List UInt8) (f : Nat) :
         have e5 : r1.state = r.state := by subst hr1; rfl
         have e6 : r1.br.cap = r.br.cap := by subst hr1; rfl
         have e7 : r1.br.src.cursor = r.br.src.cursor := by subst hr1; rfl
-        have := resumeK_spec inp f ip { r1 with br := br' } ih hb2 he2 (by simp only [e5, hst])
+        have hb2 : Base inp G { r1 with br := br' } :=
+          ⟨hw2, by simp only [e2, shiftBp]; omega⟩
+        have := resumeK_spec inp G f ip mk { r1 with br := br' } ih hb2 he2
           (by simp only [hbuf, e1, e2]; exact hpre'.append ext)
           (by
             simp only [mu, hcur, hcap, hbuf, List.length_append, e1, e6, e7,
               List.length_drop] at hext ⊢
             split <;> omega)
-        simpa only [e3, e4] using this
+        simpa only [e3, e4, e5] using this
 
 end SeqIo.Fastq
